@@ -568,6 +568,124 @@ def process_state_facts(srcdir):
     return sorted(set(out))
 
 
+def _self_writes(cls):
+    """(method, attr, kind) for every write to instance state in a class: self.X = / del, self.X[..] = / del,
+    self.X.<mutator>(..), self.X op= .."""
+    out = []
+    for m in cls.body:
+        if not isinstance(m, (ast.FunctionDef, ast.AsyncFunctionDef)):
+            continue
+        par = parents(m)
+        for n in ast.walk(m):
+            if not (isinstance(n, ast.Attribute) and isinstance(n.value, ast.Name) and n.value.id == 'self'):
+                continue
+            p = par.get(n)
+            if isinstance(n.ctx, (ast.Store, ast.Del)):
+                out.append((m.name, n.attr, 'assign'))
+            elif isinstance(p, ast.Subscript) and p.value is n and isinstance(p.ctx, (ast.Store, ast.Del)):
+                out.append((m.name, n.attr, 'item'))
+            elif isinstance(p, ast.Attribute) and p.value is n and p.attr in MUTATORS and isinstance(par.get(p), ast.Call) \
+                    and par[p].func is p:
+                out.append((m.name, n.attr, 'call'))
+            elif isinstance(p, ast.Attribute) and p.value is n and isinstance(p.ctx, (ast.Store, ast.Del)):
+                out.append((m.name, n.attr + '.' + p.attr, 'assign'))
+    return out
+
+
+def _param_mutations(cls):
+    """method:param for every parameter (other than self) that a method writes through"""
+    out = set()
+    for m in cls.body:
+        if not isinstance(m, (ast.FunctionDef, ast.AsyncFunctionDef)):
+            continue
+        params = {a.arg for a in m.args.args + m.args.kwonlyargs + m.args.posonlyargs} - {'self', 'cls'}
+        rebound = {n.id for n in ast.walk(m) if isinstance(n, ast.Name) and isinstance(n.ctx, ast.Store)}
+        par = parents(m)
+        for n in ast.walk(m):
+            if not (isinstance(n, ast.Name) and n.id in params and n.id not in rebound):
+                continue
+            p = par.get(n)
+            if isinstance(p, ast.Subscript) and p.value is n and isinstance(p.ctx, (ast.Store, ast.Del)):
+                out.add(f'{m.name}:{n.id}')
+            elif isinstance(p, ast.Attribute) and p.value is n and (
+                    isinstance(p.ctx, (ast.Store, ast.Del)) or
+                    (p.attr in MUTATORS and isinstance(par.get(p), ast.Call) and par[p].func is p)):
+                out.add(f'{m.name}:{n.id}')
+            elif isinstance(p, ast.Attribute) and p.value is n:       # param.attr[...] = / param.attr.add(...)
+                q = par.get(p)
+                if (isinstance(q, ast.Subscript) and q.value is p and isinstance(q.ctx, (ast.Store, ast.Del))) or \
+                        (isinstance(q, ast.Attribute) and q.attr in MUTATORS and isinstance(par.get(q), ast.Call) and par[q].func is q):
+                    out.add(f'{m.name}:{n.id}.{p.attr}')
+    return sorted(out)
+
+
+def write_discipline_facts(srcdir):
+    """Who may write what, for the objects a classification goes through:
+      MerchantEngine          instance state is written only while constructing / parsing; match and its helpers write
+                              nothing on the engine and nothing through their parameters (rule, transaction, rows, variables)
+      TransactionEvaluator    created per evaluation with a new, empty _scope; the only other writes are to that _scope
+      TransactionContext      written only by its constructor
+      construction sites      every TransactionEvaluator(...) is built inside the function that uses it (per call)"""
+    me = ast.parse(open(os.path.join(srcdir, 'merchant_engine.py'), encoding='utf-8').read())
+    ep = ast.parse(open(os.path.join(srcdir, 'expr_parser.py'), encoding='utf-8').read())
+
+    def cls_of(tree, name):
+        c = [n for n in tree.body if isinstance(n, ast.ClassDef) and n.name == name]
+        if len(c) != 1:
+            raise Unknown(f'class {name} not found')
+        return c[0]
+    eng = cls_of(me, 'MerchantEngine')
+    ew = _self_writes(eng)
+    writers = sorted({m for m, _, _ in ew})
+    callers = sorted({enclosing_function(n, parents(me)).name for n in ast.walk(eng)
+                      if isinstance(n, ast.Attribute) and n.attr == '_add_rule' and isinstance(n.value, ast.Name) and n.value.id == 'self'})
+    eng_params = _param_mutations(eng)
+    ev = cls_of(ep, 'TransactionEvaluator')
+    vw = _self_writes(ev)
+    init = [m for m in ev.body if isinstance(m, ast.FunctionDef) and m.name == '__init__']
+    scope_init = ''
+    if init:
+        for st in init[0].body:
+            t = st.target if isinstance(st, ast.AnnAssign) else (st.targets[0] if isinstance(st, ast.Assign) and len(st.targets) == 1 else None)
+            if t is not None and src(t) == 'self._scope' and st.value is not None:
+                scope_init = src(st.value)
+    ev_attrs = sorted({a for _, a, _ in vw})
+    scope_writers = sorted({m for m, a, _ in vw if a == '_scope' and m != '__init__'})
+    ctx = cls_of(ep, 'TransactionContext')
+    ctx_writers = sorted({m for m, _, _ in _self_writes(ctx)})
+    sites = []
+    for fn in sorted(os.listdir(srcdir)):
+        if not fn.endswith('.py'):
+            continue
+        tree = ast.parse(open(os.path.join(srcdir, fn), encoding='utf-8').read())
+        par = parents(tree)
+        for n in ast.walk(tree):
+            if isinstance(n, ast.Call) and src(n.func).split('.')[-1] == 'TransactionEvaluator':
+                f = enclosing_function(n, par)
+                st = par.get(n)
+                local = isinstance(st, ast.Assign) and len(st.targets) == 1 and isinstance(st.targets[0], ast.Name)
+                inline = isinstance(st, ast.Attribute)      # TransactionEvaluator(ctx).evaluate(...)
+                if f is None or not (local or inline):
+                    raise Unknown(f'{fn}: TransactionEvaluator built outside a function / kept in {src(st)[:60]} (line {n.lineno})')
+                if local:
+                    # the local must not escape: never stored on an object, never returned, never global
+                    name = st.targets[0].id
+                    for x in ast.walk(f):
+                        if isinstance(x, (ast.Global, ast.Nonlocal)) and name in x.names:
+                            raise Unknown(f'{fn}:{f.name}: evaluator variable {name} is global')
+                        if isinstance(x, ast.Return) and x.value is not None and src(x.value) == name:
+                            raise Unknown(f'{fn}:{f.name}: evaluator is returned')
+                        if isinstance(x, (ast.Assign, ast.AnnAssign)) and x.value is not None and src(x.value) == name:
+                            raise Unknown(f'{fn}:{f.name}: evaluator is stored elsewhere')
+                sites.append(f'{fn[:-3]}:{f.name}')
+    good_engine = writers == ['__init__', '_add_rule', 'parse'] and callers == ['parse'] and not eng_params
+    good_scope = scope_init == '{}' and ev_attrs == ['_scope', 'ctx'] and ctx_writers == ['__init__']
+    return {'engine_state_writers': writers, 'add_rule_callers': callers, 'engine_param_mutations': eng_params,
+            'evaluator_attrs': ev_attrs, 'scope_init': scope_init, 'scope_writers': scope_writers,
+            'context_writers': ctx_writers, 'evaluator_sites': sorted(set(sites)),
+            'engine_match_write_free': good_engine, 'scope_per_evaluation': good_scope}
+
+
 def extract(srcdir):
     def load(name):
         p = os.path.join(srcdir, name)
@@ -598,6 +716,7 @@ def extract(srcdir):
     facts['cached'] = cached_engine_facts(mu, mu_par)
     facts['report'] = load_error_report_facts(mu, mu_par)
     facts['state'] = process_state_facts(srcdir)
+    facts['writes'] = write_discipline_facts(srcdir)
     for fn in sorted(os.listdir(srcdir)):
         if fn.endswith('.py') and fn != 'merchant_utils.py':
             txt = open(os.path.join(srcdir, fn), encoding='utf-8').read()
@@ -651,6 +770,19 @@ Definition load_error_report : list string := {cl(f['report']['facts'])}.
    within a process (module-level variables, global declarations, class-level containers, mutable defaults, caching
    decorators, function attributes) *)
 Definition process_level_state : list string := {cl(f['state'])}.
+
+(* write discipline of the objects a classification goes through (C07/Args.v is the model of it) *)
+Definition engine_state_writers : list string := {cl(f['writes']['engine_state_writers'])}.
+Definition add_rule_callers : list string := {cl(f['writes']['add_rule_callers'])}.
+Definition engine_param_mutations : list string := {cl(f['writes']['engine_param_mutations'])}.
+Definition evaluator_attrs : list string := {cl(f['writes']['evaluator_attrs'])}.
+Definition scope_init : string := {cs(f['writes']['scope_init'])}.
+Definition scope_writers : list string := {cl(f['writes']['scope_writers'])}.
+Definition context_writers : list string := {cl(f['writes']['context_writers'])}.
+Definition evaluator_sites : list string := {cl(f['writes']['evaluator_sites'])}.
+(* the two design facts the argument-independence theorem needs *)
+Definition engine_match_write_free : bool := {'true' if f['writes']['engine_match_write_free'] else 'false'}.
+Definition scope_per_evaluation : bool := {'true' if f['writes']['scope_per_evaluation'] else 'false'}.
 
 (* does get_all_rules start by resetting _cached_engine (proposed_fixes/C07-reset-cached-engine.diff)? *)
 Definition get_all_rules_resets_cached_engine : bool := {'true' if c['resets'] else 'false'}.
